@@ -255,6 +255,8 @@ int main(int argc, char *argv[])
 		}
 	}
 
-	exit(err);
+	/* The exit status is the number of errors, but only 8 bits of it reach
+	 * the parent: do not let 256 failures look like success. */
+	exit(err > 255 ? 255 : err);
 }
 
